@@ -36,6 +36,9 @@ POWERS = ([["int", n] for n in range(-3, 4)] +
           [["float", n, d] for n, d in ((1, 2), (1, 4), (3, 2), (-5, 2), (3, 4), (-1, 2), (2, 1), (-1, 1))] +
           [["float3", n, d] for n, d in ((1, 3), (2, 3), (-1, 3), (4, 3))] +
           # the denominator of a pair / Fraction exponent may carry the sign
+          # other numeric types of the same exponents
+          [["pyfrac", 1, 2], ["pyfrac", 3, 2], ["pyfrac", -1, 3], ["pyfrac", 2, 1], ["np32", 1, 2], ["np32", 3, 2], ["np32", -1, 4],
+           ["np32", 2, 1], ["np16", 3, 2], ["np16", 1, 2]] +
           [["pair", 1, -2], ["pair", -1, -2], ["pair", 3, -4], ["pair", -3, -2], ["frac", -1, -2], ["frac", 1, -3]])
 
 
@@ -279,6 +282,12 @@ def _power_value(p):
         return (p[1], p[2]), F(p[1], p[2])
     if k == "frac":
         return LF(p[1], p[2]), F(p[1], p[2])
+    if k == "pyfrac":
+        return F(p[1], p[2]), F(p[1], p[2])                 # Python's own fractions.Fraction
+    if k == "np32":
+        return np.float32(p[1] / p[2]), F(p[1], p[2])       # exactly representable: halves and quarters
+    if k == "np16":
+        return np.float16(p[1] / p[2]), F(p[1], p[2])
     return p[1] / p[2], F(p[1], p[2])
 
 
